@@ -380,3 +380,8 @@ Proof. split; [vm_compute; reflexivity | discriminate]. Qed.
 Lemma vhost_key_collision : queue_key_add (bs "x.y") (bs "q") = queue_key_add (bs "x") (bs "y.q") /\
   vhost_of_key (queue_key_add (bs "x.y") (bs "q")) = Some (bs "x").
 Proof. split; vm_compute; reflexivity. Qed.
+
+Lemma vhost_collision_neq : bs "x.y" <> bs "x".
+Proof. discriminate. Qed.
+Lemma vhost_collision_wrong : vhost_of_key (queue_key_add (bs "x.y") (bs "q")) <> Some (bs "x.y").
+Proof. rewrite (proj2 vhost_key_collision). discriminate. Qed.
